@@ -240,6 +240,26 @@ pub fn run(out: &mut Out, tier: &str, rng: &mut Rng) {
         out.case("kahn", json!({"nodes": nodes, "edges": es, "order": "edges_first"}), json!({"n": len, "tag": "chain"}));
         out.case("kahn", json!({"nodes": nodes, "edges": es}), json!({"n": len, "tag": "chain"}));
     }
+    // combs: a chain in which every link also depends on a leaf of its own (more than 32 types, leaves interleaved with the
+    // chain in every visiting order), and rings of nodes with long non-ASCII names (whatever is reported about a cycle)
+    for &len in &[20usize, 40] {
+        let mut graph: Vec<Value> = Vec::new();
+        for i in 0..len {
+            let mut deps = vec![format!("Options{:02}", i)];
+            if i > 0 { deps.push(format!("Model{:02}", i - 1)); }
+            graph.push(json!([format!("Model{:02}", i), deps]));
+        }
+        out.case("topo", json!({"graph": graph, "request": [format!("Model{:02}", len - 1)]}), json!({"n": 2 * len, "tag": "comb"}));
+        let all: Vec<String> = (0..len).flat_map(|i| vec![format!("Model{:02}", i), format!("Options{:02}", i)]).collect();
+        out.case("topo", json!({"graph": graph, "request": all}), json!({"n": 2 * len, "tag": "comb"}));
+    }
+    for (pad, &len) in [3usize, 12, 24, 13, 25, 14, 26, 27].iter().enumerate() {
+        let names: Vec<String> = (0..len).map(|i| format!("{}ÄÖÜäöüßéèêñçåøæÄÖÜäöüß設定{:02}ßäöü", "y".repeat(if i == 0 { pad % 4 } else { 0 }), i)).collect();
+        let es: Vec<Value> = (0..len).map(|i| json!([names[i], names[(i + 1) % len]])).collect();
+        out.case("kahn", json!({"nodes": names, "edges": es}), json!({"n": len, "tag": "ring"}));
+        let es2: Vec<Value> = (0..len - 1).map(|i| json!([names[i], names[i + 1]])).collect();
+        out.case("kahn", json!({"nodes": names, "edges": es2}), json!({"n": len, "tag": "ring-open"}));
+    }
     // exhaustive on 2 and 3 nodes under the other registration orders
     for n in 2..=3usize {
         for code in 0u64..(1u64 << (n * n)) {
